@@ -35,7 +35,7 @@ KEYS = (b"r1", b"r2", b"r3", b"d2", b"c0", b"c1", b"ghost")
 
 FULL = ("commit", "commit-co", "pull-src", "pull-div", "pull-div-ow", "push-src", "push-div-ow", "fetch-r3",
         "set-tag", "del-tag", "set-opt", "set-tip", "lock", "unlock", "reopen", "obs", "oth-pull")
-CORE = ("commit", "pull-src", "pull-div-ow", "push-src", "set-tag", "del-tag", "set-opt", "lock", "unlock", "obs")
+CORE = ("commit", "pull-src", "pull-div-ow", "push-src", "set-tag", "del-tag", "lock", "unlock", "obs")
 
 # ---- template histories --------------------------------------------------------------------------
 _TEMPLATES = {}
@@ -345,7 +345,7 @@ def sequences(alphabet, maxlen, minlen=1):
     return [s for s in out if s]
 
 
-def execute(hist, seq, seqno=0):
+def execute(hist, seq, seqno=0, sides=SIDES):
     """Run seq on the three sides; returns (per-side step results, per-side dumps, request counts)."""
     from breezy import lockdir
     results = {}
@@ -354,7 +354,7 @@ def execute(hist, seq, seqno=0):
     old = lockdir._DEFAULT_TIMEOUT_SECONDS
     lockdir._DEFAULT_TIMEOUT_SECONDS = 0
     try:
-        for name in SIDES:
+        for name in sides:
             side = Side(name, hist, seqno)
             try:
                 results[name] = [apply_op(side, op) for op in seq]
@@ -368,11 +368,13 @@ def execute(hist, seq, seqno=0):
 
 
 def compare(hist, seq, results, dumps, acc, best):
+    """Report, per remote side, only the EARLIEST discrepancy of the sequence (a wrong store or
+    return value makes everything after it differ as a mere consequence)."""
     ok = True
     for name in SIDES[1:]:
+        ret = None          # (0-based step, signature, detail) of the first differing return value
         for k, (a, b) in enumerate(zip(results["local"], results[name])):
             if a != b:
-                ok = False
                 op = seq[k]
                 what = "return"
                 detail = {"local": a, name: b}
@@ -384,22 +386,38 @@ def compare(hist, seq, results, dumps, acc, best):
                     detail = {"local": da[diff[0]], name: db.get(diff[0]), "all_differing_reads": diff}
                 elif _is_exc(a) or _is_exc(b):
                     what = "exception"
-                sig = "%s:%s-differs:%s" % (op, what, name)
-                _note(best, acc, sig, seq, {"history": hist, "sequence": list(seq), "step": k, "side": name,
-                                            "differs": detail})
+                ret = (k, "%s:%s-differs:%s" % (op, what, name),
+                       {"history": hist, "sequence": list(seq[:k + 1]), "step": k, "side": name, "differs": detail})
                 break
+        sto = None          # (number of steps after which the stores first differ, signature, detail)
         if dumps["local"] != dumps[name]:
-            ok = False
+            # locate the first step after which the stores differ (prefixes are re-executed)
+            k = len(seq)
+            dl, dn = dumps["local"], dumps[name]
+            for j in range(1, len(seq)):
+                _r, dj, _q = execute(hist, seq[:j], sides=("local", name))
+                if dj["local"] != dj[name]:
+                    k, dl, dn = j, dj["local"], dj[name]
+                    break
             where = []
             for br in BRANCHES:
-                for field in dumps["local"][br]:
-                    if dumps["local"][br][field] != dumps[name][br][field]:
+                for field in dl[br]:
+                    if dl[br][field] != dn[br][field]:
                         where.append((br, field))
             br, field = where[0]
-            sig = "%s:store-%s-differs:%s" % (seq[-1], field, name)
-            _note(best, acc, sig, seq, {"history": hist, "sequence": list(seq), "side": name, "branch": br,
-                                        "field": field, "local": dumps["local"][br][field],
-                                        name: dumps[name][br][field], "all_differing": where})
+            sto = (k, "%s:store-%s-differs:%s" % (seq[k - 1], field, name),
+                   {"history": hist, "sequence": list(seq[:k]), "side": name, "branch": br, "field": field,
+                    "local": dl[br][field], name: dn[br][field], "all_differing": where})
+        if ret is None and sto is None:
+            continue
+        ok = False
+        if sto is not None and (ret is None or sto[0] <= ret[0]):
+            # the stores already differed before the step whose return value differs
+            _note(best, acc, sto[1], tuple(sto[2]["sequence"]), sto[2])
+        else:
+            _note(best, acc, ret[1], tuple(ret[2]["sequence"]), ret[2])
+            if sto is not None and sto[0] == ret[0] + 1:
+                _note(best, acc, sto[1], tuple(sto[2]["sequence"]), sto[2])
     return ok
 
 
